@@ -142,6 +142,15 @@ fn pmtiles_dir_from_bytes(a: &[String]) -> Result<bool> {
 	Ok(false)
 }
 
+fn block_definition_from_bytes(a: &[String]) -> Result<bool> {
+	// args: 33 hex bytes — C19/C16: decoding arbitrary bytes as a versatiles block definition returns Ok/Err, never panics
+	use versatiles_container::verif_hooks_versatiles::BlockDefinition;
+	let bytes: Vec<u8> = a.iter().map(|h| u8::from_str_radix(h, 16).expect("hex byte")).collect();
+	let res = BlockDefinition::from_blob(&Blob::from(bytes));
+	println!("BlockDefinition::from_blob -> {}", match &res { Ok(b) => format!("Ok({b:?})"), Err(e) => format!("Err({e})") });
+	Ok(false)
+}
+
 fn main() -> Result<()> {
 	let args: Vec<String> = std::env::args().skip(1).collect();
 	if args.is_empty() { eprintln!("usage: verif_replay <case> args…"); std::process::exit(2); }
@@ -152,6 +161,7 @@ fn main() -> Result<()> {
 			"converter_lookup_vs_stream" => rt.block_on(converter_lookup_vs_stream(rest)),
 			"cache_just_used_survives" => cache_just_used_survives(rest),
 			"pmtiles_dir_from_bytes" => pmtiles_dir_from_bytes(rest),
+			"block_definition_from_bytes" => block_definition_from_bytes(rest),
 			"svarint_roundtrip" => svarint_roundtrip(rest),
 			"pbf_length_prefix" => pbf_length_prefix(rest),
 			"vector_tile_from_bytes" => vector_tile_from_bytes(rest),
